@@ -125,3 +125,27 @@ var probeTorn = []emitted{
 	hist(cNewTask("title", "A"), cTear("partial"), cNewTask("title", "B"), cTear("partial"), cNewEpic("E"), cTear("full"), cSet("i1", "epic", "i3")),
 	hist(cNewTask("title", "A"), cTear("partial"), Cmd{"name": "plan", "mode": "json", "doc": map[string]any{"title": "P", "tasks": []any{map[string]any{"title": "x"}}}}, cTear("partial"), cCompact(), cListReady()),
 }
+
+// plan with the id source proposing the same id twice (the epic's id must not be
+// handed to one of its tasks) and ids of pruned items
+func cPlan(title string, tasks ...string) Cmd {
+	var ts []any
+	for _, t := range tasks {
+		ts = append(ts, map[string]any{"title": t})
+	}
+	return Cmd{"name": "plan", "mode": "json", "doc": map[string]any{"title": title, "tasks": ts}}
+}
+func withIDs(c Cmd, ids ...string) Cmd { c["forceids"] = ids; return c }
+
+var probePlanIDs = []emitted{
+	hist(withIDs(cPlan("P", "x", "y"), "QQQQQQ", "QQQQQQ", "RRRRRR", "RRRRRR", "SSSSSS"), cListReady(), cCompact()),
+	hist(cNewTask("title", "A"), withIDs(cPlan("P", "x"), "QQQQQQ", "QQQQQQ", "QQQQQQ", "TTTTTT"), cSet("i1", "state", "done")),
+	hist(cNewEpic("E"), cPrune(), reuse(cPlan("P", "x", "y", "z"))),
+}
+
+// id order against creation order: the moved task's id sorts before its new epic's id
+var probeIDOrder = []emitted{
+	hist(withID(cNewEpic("old"), "MMMMMM"), withID(cNewEpic("new"), "ZZZZZZ"), withID(cNewTask("title", "moved", "epic", "i1"), "AAAAAA"),
+		cSet("i3", "epic", "i2"), cCompact(), cListReady(), cPrune(), cCompact()),
+	hist(withID(cNewEpic("new"), "ZZZZZZ"), withID(cNewTask("title", "moved"), "AAAAAA"), cSet("i2", "epic", "i1"), cCompact(), cCompact(), cPrune()),
+}
